@@ -1,3 +1,8 @@
+import os as _os
+# compiled with the library's flags next to the ufw sources of the mixed builds (tells the harness what the
+# library's translation units see as sizeof(rb_iter) / sizeof(octet_ring)); an absolute path survives os.path.join
+_LIBSIDE = _os.path.join(_os.path.dirname(_os.path.dirname(_os.path.dirname(_os.path.abspath(__file__)))), "harness", "c19_libside.c")
+
 CHECK = {
     "level": "model_checking",
     "technique": "explicit-state search to fixpoint over (ring implementation state, model queue) pairs; the implementation state is the object's octet image (every word that points into the storage replaced by its offset) plus the storage cells, so no particular encoding of head/tail/empty is assumed; six instances of the template: uint8_t (the library's octet_ring), uint16_t, uint32_t, float, double, int64_t; "
@@ -5,9 +10,10 @@ CHECK = {
                  "re-initialisation of the used object (NAME_init on fresh storage, capacities cap-1/cap/cap+1/1/max) is an operation of the search, its model is an empty ring of the new capacity whose mode is probed on a copy of the re-initialised object (the statement is silent on the mode after re-initialisation); "
                  "observers and both iterators run in every state, every iteration on iterator objects with 7 different histories; "
                  "plus a bounded-exhaustive family of structured histories on capacities straddling 2^8 and 2^16 (thorough also 2^15, 2^17); "
-                 "build variants: the search at capacities 1..3 is repeated with assertions enabled everywhere (the repository's default build type), and with the library objects and the application (this harness with its own template instances) built with different NDEBUG settings, both ways",
+                 "build variants: the search at capacities 1..3 is repeated with assertions enabled everywhere (the repository's default build type), and with the library objects and the application (this harness with its own template instances) built with different NDEBUG settings, both ways (the two mixed builds only if a start-up probe finds the object layouts of both sides equal)",
     "rule": "a case is one transition (operation applied to a reachable state) followed by size/empty/full and both iterators run to completion; non-trivial = everything but clear of an empty ring; "
             "path numbers 0..5 are put(A) put(B) get clear override(on) override(off), 100+B is NAME_init(object, fresh storage, B); "
+            "layout probe cases (mixed builds): sizeof/alignof of rb_iter and of octet_ring on both sides of the library boundary; "
             "probe cases: init, cap puts, one more put, get (decides the mode the model gives a freshly initialised ring); "
             "big cases: one structured history (rotate cursors, fill, overfill, iterate, drain, iterate, two more puts, iterate, drain to empty)",
     "assumptions": ["two element values per type (float/double: fractions of either sign; int64_t: a negative value and one beyond 2^32), compared by bit pattern; capacities up to the stated bound (small-scope); large capacities only through the structured family named in the bound, with position-dependent element values",
@@ -15,7 +21,7 @@ CHECK = {
                     "the ring object is a flat struct; a state is restored on a fresh exact-size block by copying the object's octets (padding included) and pointing every aligned pointer-sized word whose value lay in [storage, storage + capacity * sizeof(TYPE)] at the same offset of the new block (the storage pointer, cached positions); keys and printed object images hold the offsets, never addresses; an integer member that happens to equal an address inside the storage would be mistaken for such a pointer",
                     "the state set of one search is limited to 8 x (from capacity 7: 4 x) (24 * cap * 2^cap + 400) states (the unchanged library reaches 78..243714 at capacities 1..10): an object whose image never repeats (counters of dropped/evicted elements) has no fixpoint, its search stops at the limit and the run is marked non-exhaustive",
                     "no clause inspects head/tail or the iterator's index, and the harness names no member of the ring object: a slot outside the storage is observed by ASan on the exact-size block; a ring that moved its storage is seen by the pointer-rebasing restore (the fresh block's cells no longer follow the queue) and by ASan",
-                    "NDEBUG is a per-translation-unit setting of the C standard and not part of the statement: the property has to hold with assertions enabled (a failed assertion on a history of the statement is reported as memsafe/abort), and when the separately built library objects (octet_ring, rb_iter_done, rb_iter_advance) and the application that instantiates the header templates disagree on NDEBUG (public types whose layout depends on NDEBUG break there)",
+                    "NDEBUG is a per-translation-unit setting of the C standard and not part of the statement: the property has to hold with assertions enabled (a failed assertion on a history of the statement is reported as memsafe/abort), and when the separately built library objects (octet_ring, rb_iter_done, rb_iter_advance) and the application that instantiates the header templates disagree on NDEBUG -- provided the two sides agree on the layout of the public object types: the statement does not promise a layout independent of NDEBUG (a debug-only member of rb_iter or of the ring object is a legitimate design, such a library is built with its application's setting), so each mixed harness compares sizeof/alignof of rb_iter and octet_ring as seen by a file compiled with the library's flags (harness/c19_libside.c) with its own view at start-up and does not search on a mismatch (two probe cases, cap `layout-ndebug`, run marked non-exhaustive)",
                     "the override mode chosen by init is not assumed: it is observed on a fresh zeroed object (fill, one more put, get: dropped or evicted) and the model of every ring that was initialised for the first time -- on a zeroed object or on one that held 0xff octets -- starts in that mode; every other history sets the mode explicitly",
                     "the statement is silent on the mode of a ring that is initialised again after use (as a fresh one, or the mode configured before: either is a correct queue): it is observed on a copy of the re-initialised object (fill, one more put, get) and the model continues with what was seen; neither dropped nor evicted is a violation (C19/put-full)",
                     "NAME_init on a used object is read as the start of a new history of the statement (the ring then has the new capacity and is empty); a re-initialised state identical (object image, cells, model incl. mode) to the fresh root of another capacity is not explored again in this partition, that capacity's own search explores it",
@@ -34,7 +40,15 @@ CHECK = {
         "lib": ["src/octet-ring.c", "src/ring-buffer-iter.c"], "shards": 4, "opt": "-O1", "min_outcomes": 9,
         "cflags": ["-DC19_LIGHT"] + fl,
         "require_outcomes": {"any": ["put-evicts", "put-dropped", "get-empty", "get-oldest", "clear", "reinit", "initial-dirty-object"]},
-    } for n, fl in (("c19_ring_assertions", ["-UNDEBUG"]),
-                    ("c19_ring_lib_assertions_app_ndebug", ["-UNDEBUG", "-DC19_APP_NDEBUG"]),
+    } for n, fl in (("c19_ring_assertions", ["-UNDEBUG"]),)] + [{
+        # mixed builds: gated on a start-up probe (do library and application agree on sizeof/alignof of rb_iter and
+        # octet_ring?).  A library whose public layouts depend on NDEBUG is not searched in a mixed build (cap, two probe
+        # cases only), so the search's outcome classes cannot be required here; a shard that did search guards itself
+        # (mc_broken below 6 classes), and the all-assertions harness above keeps the full guard.
+        "name": n, "src": "harness/c19_ring.c", "shape": "estate",
+        "lib": ["src/octet-ring.c", "src/ring-buffer-iter.c", _LIBSIDE], "shards": 4, "opt": "-O1", "min_outcomes": 2,
+        "cflags": ["-DC19_LIGHT"] + fl,
+        "require_outcomes": {},
+    } for n, fl in (("c19_ring_lib_assertions_app_ndebug", ["-UNDEBUG", "-DC19_APP_NDEBUG"]),
                     ("c19_ring_lib_ndebug_app_assertions", ["-DC19_APP_DEBUG"]))],
 }
